@@ -1184,6 +1184,35 @@ func ruleHorzJoinOwner(rule string) func(*Ctx) {
 			swap       bool
 		}
 		newRec := "(clipperBase).newOutRec(" + recv + ")"
+		// which parameter of the containment helper is the CONTAINER is read from its body (the one handed to
+		// pointInOpPolygon as the polygon), not assumed from position: a rename that also swaps the parameters
+		// must swap every call site
+		containerFirst := false
+		if g := c.fnOpt("path1InsidePath2"); g != nil && len(g.Params) == 2 {
+			for _, ci := range calls(g) {
+				if calleeName(c, ci) != "pointInOpPolygon" || len(ci.Common().Args) != 2 {
+					continue
+				}
+				var root func(v ssa.Value, d int) ssa.Value
+				root = func(v ssa.Value, d int) ssa.Value {
+					if ph, ok := v.(*ssa.Phi); ok && d < 4 {
+						for _, e := range ph.Edges {
+							if r := root(e, d+1); r != nil {
+								return r
+							}
+						}
+						return nil
+					}
+					if _, ok := v.(*ssa.Parameter); ok {
+						return v
+					}
+					return nil
+				}
+				if r := root(ci.Common().Args[1], 0); r != nil && r == ssa.Value(g.Params[0]) {
+					containerFirst = true
+				}
+			}
+		}
 		cases := []caseT{
 			{"old ring inside the new ring", boolVal(true), boolVal(false), "outer", true},
 			{"new ring inside the old ring", boolVal(false), boolVal(true), "old", false},
@@ -1197,7 +1226,7 @@ func ruleHorzJoinOwner(rule string) func(*Ctx) {
 						if strings.Contains(e, "(getRealOutRec") || true {
 							a := strings.Index(e, "getRealOutRec")
 							b := strings.Index(e, newRec)
-							if a >= 0 && b >= 0 && a < b {
+							if (a >= 0 && b >= 0 && a < b) != containerFirst {
 								return cs.aInB, true
 							}
 							return cs.bInA, true
